@@ -378,6 +378,8 @@ pub fn decode(img: &Image, o: &DecodeOpts) -> Value {
         // label and volume id of the boot sector (the id as two 16-bit halves: TLC integers are 32-bit signed)
         "lab": img.vec_at(if g.layout32 { 71 } else { 43 }, 11),
         "vid": [img.u16_at(if g.layout32 { 67 } else { 39 }), img.u16_at(if g.layout32 { 69 } else { 41 })],
+        // extended boot signature: label, id and type string are meaningful only when it is 0x29
+        "xs": img.u8_at(if g.layout32 { 66 } else { 38 }),
     });
     let status = img.u8_at(g.status_off());
     let fi = if g.layout32 {
